@@ -76,9 +76,23 @@ def int_lit(v):
     return '(0 - %d)' % (-v)
 
 
-def render_text(text, m, ctx, ints=None, strs=None):
+def float_lit(f):
+    """ucg source text for a finite non-negative f64: the exact decimal expansion (digits '.' digits, no exponent), which parses
+    back to the same f64"""
+    from decimal import Decimal
+    t = format(Decimal(f), 'f')
+    return t if '.' in t else t + '.0'
+
+
+def render_text(text, m, ctx, ints=None, strs=None, floats=None):
     """concrete program text for a model: placeholders replaced by literal values"""
     out = text
+    for i, term in sorted((floats or {}).items(), reverse=True):
+        import z3
+        val = m.eval(term, model_completion=True)
+        bits = m.eval(z3.fpToIEEEBV(val), model_completion=True).as_long()
+        import struct
+        out = out.replace(ph(i) + '.5', float_lit(struct.unpack('<d', struct.pack('<Q', bits))[0]))
     for i, term in sorted((ints or {}).items(), reverse=True):
         val = m.eval(term, model_completion=True)
         out = out.replace(ph(i), int_lit(val.as_signed_long()))
